@@ -1235,6 +1235,8 @@ Vdetach(int32 vkey /* IN: vgroup key */)
     /* Now, only update the Vgroup if it has actually changed. */
     /* Since only Vgroups with write-access are allowed to change, there is */
     /* no reason to check for access... (I hope) -QAK */
+    if (vg->marked == 1 && vg->access != 'w')
+        HGOTO_ERROR(DFE_BADACC, FAIL);
     if (vg->marked == 1) {
         size_t need, vgnamelen = 0, vgclasslen = 0;
         if (vg->vgname != NULL)
@@ -1563,7 +1565,7 @@ Vdeletetagref(int32 vkey, /* IN: vgroup key */
 
     /* get vgroup itself and check */
     vg = v->vg;
-    if (vg == NULL)
+    if (vg == NULL || vg->access != 'w')
         HGOTO_ERROR(DFE_BADPTR, FAIL);
 
     /* set comparison tag/ref pair */
@@ -1928,7 +1930,7 @@ Vaddtagref(int32 vkey, /* IN: vgroup key */
 
     /* get vgroup itself and check */
     vg = v->vg;
-    if (vg == NULL)
+    if (vg == NULL || vg->access != 'w')
         HGOTO_ERROR(DFE_BADPTR, FAIL);
 
 #ifdef NO_DUPLICATES
